@@ -1,35 +1,50 @@
-//! scratch probe (not registered): run one scenario given on the command line under random schedules
+//! scratch probe (not registered): replay a replay-file (scenario + schedule) and dump the await protocol history
 #[path = "msys/mod.rs"]
 mod msys;
 use msys::*;
-use qverif::sim::Policy;
-use qverif::{Model, Rng};
+use qverif::Model;
+use quiver_environment::{Command, Event};
 fn main() {
     qverif::quiet_panics();
     let args: Vec<String> = std::env::args().collect();
-    let scripts = parse_scripts(&args[1]).expect("scripts");
-    let n: usize = args[2].parse().unwrap();
-    let runs: u64 = args[3].parse().unwrap();
+    let j: serde_json::Value = serde_json::from_str(&std::fs::read_to_string(&args[1]).unwrap()).unwrap();
+    let r = &j["replay"];
+    let scripts = parse_scripts(r["scenario"]["scripts"].as_str().unwrap()).expect("scripts");
+    let n = r["workers"].as_u64().unwrap() as usize;
+    let q = r["quantum"].as_u64().map(|x| x as usize);
     let sc = Scenario { kind: "probe".into(), scripts, terminates: true, confluent: false };
     println!("{}", sc.source());
     let mut model = Model::spawn(std::path::Path::new("/verif/lean/.lake/build/bin/qm_c04"));
-    let mut outcomes = std::collections::BTreeMap::new();
-    for k in 0..runs {
-        let mut r = Rng::for_case(77, k);
-        let pol = Policy::random(&mut r, n);
-        let (mut sim, req) = start(&sc, n, None).expect("start");
-        sim.schedule.clear();
-        let mut lock = Lock::new(sim, Some(&mut model));
-        lock.ask_model(init_line(&sc, n, req), "init");
-        let mut result = None;
-        let fin = lock.run_random(&mut r, &pol, 5000, |s| { if result.is_none() { result = s.poll_result(req); } result.is_some() }, true);
-        let res = match &result { Some(Ok((v, _))) => show_val(v), Some(Err(e)) => format!("err:{e:?}"), None => "none".into() };
-        let nproc: usize = lock.sim.processes().len();
-        let res = if let Some(p) = lock.sim.workers[0].verif_executor().get_process(0) && let Some(Err(e)) = &p.result { format!("{res} P0err={e:?}") } else { res };
-        let key = format!("fin={fin} procs={nproc} res={res} mismatch={} faults={}", lock.mismatch.is_some(), lock.sim.faults.len());
-        let e = outcomes.entry(key).or_insert((0, String::new()));
-        e.0 += 1;
-        if e.1.is_empty() { e.1 = lock.schedule().join(" "); if let Some((st, c, i, m)) = &lock.mismatch { e.1 = format!("{}\n step {st} {c}\n IMPL  {i}\n MODEL {m}\n last req {:?}", e.1, lock.model_lines.last()); } }
+    let (mut sim, req) = start(&sc, n, q).expect("start");
+    for ch in &sim.chans { ch.chan.lock().unwrap().record = true; }
+    sim.schedule.clear();
+    let mut lock = Lock::new(sim, Some(&mut model));
+    lock.ask_model(init_line(&sc, n, req), "init");
+    for c in r["schedule"].as_array().unwrap() {
+        let ch = parse_choice(c.as_str().unwrap(), n).unwrap();
+        lock.step(ch);
     }
-    for (k, (n, s)) in outcomes { println!("{n:5} {k}\n      {s}"); }
+    println!("mismatch: {:?}", lock.mismatch.as_ref().map(|m| (&m.0, &m.1)));
+    let mut log: Vec<(u64, String)> = vec![];
+    for (i, ch) in lock.sim.chans.iter().enumerate() {
+        let c = ch.chan.lock().unwrap();
+        for (seq, e) in &c.evt_log {
+            match e {
+                Event::ProcessResults { awaiter, results } => log.push((*seq, format!("W{i} evt ProcessResults awaiter={awaiter} {:?}", results.iter().map(|(k, v)| (*k, v.is_some())).collect::<Vec<_>>()))),
+                Event::AwaitAction { awaiter, targets } => log.push((*seq, format!("W{i} evt Await awaiter={awaiter} {targets:?}"))),
+                _ => {}
+            }
+        }
+        for (seq, e) in &c.cmd_log {
+            match e {
+                Command::UpdateAwaitResults { awaiter, results } => log.push((*seq, format!("W{i} cmd Update awaiter={awaiter} {:?}", results.iter().map(|(k, v)| (*k, v.is_some())).collect::<Vec<_>>()))),
+                Command::QueryAndAwait { awaiter, targets } => log.push((*seq, format!("W{i} cmd Query awaiter={awaiter} {targets:?}"))),
+                _ => {}
+            }
+        }
+    }
+    log.sort();
+    for (s, l) in log { println!("{s:4} {l}"); }
+    println!("{}", snapshot(&lock.sim));
+    println!("{}", lock.model.as_mut().unwrap().ask("(ghost)"));
 }
